@@ -114,6 +114,20 @@ DESC = {
  ("wt4_P",4):("C10","mailbox","ProcessInbound skips a MID already in in/","storing a MID that is already in the inbox (read, or with different bytes)"),
  ("wt4_P",5):("C11","mailbox","writeFileAtomic writes data <= 4096 bytes directly to the final name","crash inside the write of a small message"),
  ("wt4_P",6):("C12","mailbox","shared store() helper loses the validMID check of AddOut/ProcessInbound","received message whose Mid header contains path separators"),
+ ("wt5_S",1):("C18","fbb","StringToBody translates the normalised text in 32 KiB chunks","body over 32 KiB with a two-byte character across a 32768 multiple"),
+ ("wt5_S",2):("C09","fbb","Header.Write folds lines longer than 78 bytes; the parser unfolds with a single blank","long subject or attachment name with two adjacent blanks at the fold point"),
+ ("wt5_S",3):("C10","mailbox","stripPrivateHeaders deletes every X-* header","outbound message carrying another X- header"),
+ ("wt5_S",4):("C16","fbb","nil-callback guard moved below the ;FW: loop that already calls the callback","challenge, no callback registered and at least one auxiliary address"),
+ ("wt5_S",5):("C05","fbb","offset guards merged into offset <= 0","peer answering FS !0 / A0 (zero-offset accept)"),
+ ("wt5_S",6):("C01","fbb","parseB2Proposal refuses compressedSize > size","incompressible message (compressed form larger than the message)"),
+ ("wt5_S",7):("C03","fbb","FS answer built in a fixed [MaxBlockSize]byte array","remote sends six or more proposals in one block"),
+ ("wt5_T",1):("C20","catalog","coordinate first rounded to micro-degrees","coordinate with more than 6 decimals whose micro-degree rounding crosses a 0.0001 minute boundary"),
+ ("wt5_T",2):("C19","transport","user info copied with url.UserPassword(user, pass)","URL with a user but no password"),
+ ("wt5_T",3):("C15","transport/telnet","deadline extended by the timeout for every non-prompt line (inactivity timeout)","server that never prompts but keeps sending lines"),
+ ("wt5_T",4):("C13","transport/ax25/agwpe","TNC.run reuses one frame variable whose Data buffer is recycled","another frame arriving while a data frame is still unread"),
+ ("wt5_T",5):("C14","transport/ardop","ARQ data handed over with a non-blocking select that drops the link","more than 4096 ARQ frames delivered before the application reads"),
+ ("wt5_T",6):("C06","lzhuf","match tail served straight from the window without wrapping at the ring end","read buffer ending inside a match whose remainder crosses ring index 2047"),
+ ("wt5_T",7):("C04","fbb","SOH header-length check relaxed from != to >","header length byte changed in transit to a smaller value"),
 }
 results = {}
 for f in ['/tmp/seedfirst.txt'] + sorted(glob.glob('/tmp/seedbatch*.txt')) + sorted(glob.glob('/tmp/seedfinal*.txt')):
@@ -160,4 +174,8 @@ with open('/verif/seeded/README.md', 'w') as f:
     for m in rows:
         cb = '; '.join(m['caught_by']) if m['caught_by'] else ('**not caught**' if m.get('checks_run') else 'n/a')
         f.write(f"| {m['id']} | {m['change']} | {m['needs_to_manifest']} | {cb} |\n")
+    if os.path.exists('/verif/seeded/BENIGN-results.txt'):
+        f.write('\n## Behaviour-preserving changes (false-alarm probe)\n\n`BENIGN-R5R-<i>/` hold ten refactorings by an independent sub-agent after which every property still holds (`patch.diff`, `notes.md`). Quick checks of the properties whose code each touches, run against the patched tree (`bin/gosym check <id> --repo <worktree>`): every one exits 0.\n\n```\n')
+        f.write(open('/verif/seeded/BENIGN-results.txt').read())
+        f.write('```\n')
 print(len(rows), 'seeds collected')
